@@ -16,7 +16,8 @@ ASSUMPTIONS = ["explicit Euler with h*w > 1 overshoots by construction and is no
 
 def payloads(tier, seed):
     n = 60 if tier == "quick" else 1200
-    return [{"seed": seed, "index": i} for i in range(n)] + [{"seed": seed, "index": i, "mode": "adaptive"} for i in range(12 if tier == "quick" else 200)]
+    return [{"seed": seed, "index": i} for i in range(n)] + [{"seed": seed, "index": i, "mode": "adaptive"} for i in range(12 if tier == "quick" else 200)] \
+        + [{"seed": seed, "index": i, "mode": "large"} for i in range(2 if tier == "quick" else 12)]
 
 def adaptive_task(W, payload):
     """trajectory clause for the adaptive solver at the tolerance the CALLER asks for, on models whose compartments run (nearly) empty:
@@ -73,7 +74,63 @@ def adaptive_task(W, payload):
                  tolerance=tol, program=ops)
     return out
 
+def large_task(W, payload):
+    """a model of realistic size (three compartments under two stratifications of five or six strata: about a hundred compartments and two
+    hundred flows) at a state in which many compartments are empty: no empty compartment has a negative rate of change, and every compartment's
+    rate is the sum of its inflows minus the sum of its outflows (flow ends read from model.flows)"""
+    import interp as interp_mod
+    r = random.Random(f"C18L:{payload['seed']}:{payload['index']}")
+    out = mk_out()
+    na, nb = r.choice([(6, 6), (6, 5), (5, 6)])
+    sa = [f"a{i}" for i in range(na)]; sb = [f"b{i}" for i in range(nb)]
+    ops = [{"op": "model", "t0": "0", "t1": "2", "dt": "1", "comps": ["S", "I", "R"], "inf": ["I"]},
+           {"op": "init_pop", "dist": [["S", {"c": "900"}], ["I", {"c": "100"}]]},
+           {"op": "flow", "kind": "inf_freq", "name": "inf", "param": {"c": "1/2"}, "src": "S", "dst": "I"},
+           {"op": "flow", "kind": "transition", "name": "rec", "param": {"c": "1/8"}, "src": "I", "dst": "R"},
+           {"op": "flow", "kind": "transition", "name": "wane", "param": {"c": "1/16"}, "src": "R", "dst": "S"},
+           {"op": "flow", "kind": "universal_death", "name": "mu", "param": {"c": "1/64"}},
+           {"op": "flow", "kind": "absolute", "name": "move", "param": {"c": "3"}, "src": "S", "dst": "R"},
+           {"op": "stratify", "kind": "plain", "name": "aa", "strata": sa, "comps": ["S", "I", "R"]},
+           {"op": "stratify", "kind": "plain", "name": "bb", "strata": sb, "comps": ["S", "I", "R"]}]
+    bump(out, f"large_model:{3 * na * nb}_compartments")
+    I = interp_mod.Interp()
+    for op in ops:
+        rr = I.apply(op)
+        if not rr["ok"]:
+            bump(out, "large_infra:" + str(rr.get("err"))[:60]); return out
+    m = I.model
+    n = len(m.compartments)
+    x = [float(r.randint(1, 50)) if r.random() < 0.5 else 0.0 for _ in range(n)]
+    # keep the infectious population and the total positive (frequency-dependent transmission)
+    for i_, c in enumerate(m.compartments):
+        if c.name == "I" and i_ % 7 == 0: x[i_] = 5.0
+    rr = I.apply({"op": "one_step", "params": [], "t": "0", "x": [q(Fr(v)) for v in x]})
+    out["evals"] += 1
+    if not rr["ok"]:
+        fail(out, "one_step raised on a model of about a hundred compartments", "c18", payload, err=rr.get("err"), sizes=[n, len(m.flows)]); return out
+    fr = np.array(rr["flow_rates"]); cr = np.array(rr["comp_rates"])
+    idx = {str(c): i_ for i_, c in enumerate(m.compartments)}
+    want = np.zeros(n)
+    for k, f in enumerate(m.flows):
+        if f.source is not None: want[idx[str(f.source)]] -= fr[k]
+        if f.dest is not None: want[idx[str(f.dest)]] += fr[k]
+    out["cases"].append(f"large:{na}:{nb}")
+    scale = max(1.0, float(np.abs(fr).sum()))
+    if cr.shape != want.shape or np.abs(cr - want).max() > 1e-9 * scale:
+        fail(out, "compartment rates of a large model are not inflows minus outflows", "c18", payload, worst=float(np.abs(cr - want).max()) if cr.shape == want.shape else None,
+             sizes=[n, len(m.flows)], x=x)
+    # absolute flows remove a fixed number whatever the source holds (documented exception); everything else must not drain an empty compartment
+    abs_src = {idx[str(f.source)] for f in m.flows if type(f).__name__ == "AbsoluteFlow" and f.source is not None}
+    bad = [i_ for i_ in range(n) if x[i_] == 0.0 and i_ not in abs_src and cr[i_] < -1e-12]
+    if bad:
+        fail(out, "an empty compartment of a large model has a negative rate of change", "c18", payload, compartments=[str(m.compartments[i_]) for i_ in bad[:5]],
+             rates=[float(cr[i_]) for i_ in bad[:5]], sizes=[n, len(m.flows)], x=x)
+    return out
+
+
 def task(W, payload):
+    if payload.get("mode") == "large":
+        return large_task(W, payload)
     if payload.get("mode") == "adaptive":
         return adaptive_task(W, payload)
     r = random.Random(f"C18:{payload['seed']}:{payload['index']}")
